@@ -2162,6 +2162,9 @@ class Interp:
         """type(v) for the values of the interpreter"""
         if isinstance(v, Obj) and v.cls is not None:
             return ("class", v.cls)
+        if isinstance(v, Obj) and v.kind in ("future", "qubit"):
+            # a recorder standing for an SDK object: of the class it stands for
+            return ("class", self.repo.get_class("netqasm.sdk.futures", "Future") if v.kind == "future" else self.repo.get_class("netqasm.sdk.qubit", "Qubit"))
         if isinstance(v, EnumMember):
             mod_, cn_ = v.enum.split(":")
             return ("class", self.repo.get_class(mod_, cn_.split(".")[-1]))
